@@ -600,6 +600,7 @@ func checkCmd(p *propCfg, tier, repo string, writeEvidence bool) int {
 	}
 	os.MkdirAll(rdir, 0o755)
 	shrunk := 0
+	seenKey := map[string]bool{}
 	for _, k := range keys {
 		cases := agg.byKey[k]
 		if shrunk >= 6 {
@@ -625,6 +626,10 @@ func checkCmd(p *propCfg, tier, repo string, writeEvidence bool) int {
 			exit = 2
 			continue
 		}
+		if seenKey[v.key()] {
+			continue // already reported (a witness of another class reproduced as this one)
+		}
+		seenKey[v.key()] = true
 		kf := matchKnown(known, p.ID, v)
 		name := fmt.Sprintf("%s-%s-%s.json", p.ID, sanitize(v.Class), sanitize(v.Site))
 		path := filepath.Join(rdir, name)
